@@ -51,7 +51,9 @@ func getSubnetsHkdf(sc genericSubnetConfig, seed []byte, weighted bool) ([]*phan
 			cjSubnet := cjSubnet // copy loop ptr
 			weight := cjSubnet.GetWeight()
 			subnets := cjSubnet.GetSubnets()
-			if subnets == nil {
+			if len(subnets) == 0 {
+				// Clients read the list from a protobuf, where a group without subnets always has a
+				// nil slice; a station file can also spell it "Subnets = []" (empty, not nil).
 				continue
 			}
 
